@@ -41,6 +41,13 @@ struct Graph {
     void close() { if (f && f.isOpen()) f.close(); f = nix::none; }
     void open(nix::FileMode m) { f = nix::File::open(path, m, "hdf5", comp); }
     std::string name() { return gen_name(r, serial++, hostile_pct); }
+    // a name that puts the HDF5 path of the new child (container path + "/" + name) right on or next to a power-of-two length:
+    // fixed-size path buffers fail at exactly such lengths
+    std::string name_at_boundary(const std::string &container_path) {
+        static const long targets[] = {63, 64, 65, 127, 128, 129, 255, 256, 257, 511, 512, 513}; long t = r.pick(targets), len = t - (long)container_path.size() - 1;
+        if (len < 3) return name(); std::string n = "b" + str(serial++) + "_"; if ((long)n.size() > len) return name(); return n + std::string((size_t)(len - (long)n.size()), 'p');
+    }
+    std::string child_name(const std::string &container_path) { return r.chance(0.08) ? name_at_boundary(container_path) : name(); }
 
     // ---- operand selection by enumeration
     bool anyBlock(nix::Block &b) { nix::ndsize_t n = f.blockCount(); if (!n) return false; b = f.getBlock(r.u(n)); return true; }
@@ -111,17 +118,17 @@ struct Graph {
                 case 2: { what = "createProperty"; c.op(what); Section s; if (!anySection(s) || s.propertyCount() >= (ndsize_t)max_children) break; static const DataType ts[] = {DataType::Bool, DataType::Int32, DataType::UInt32, DataType::Int64, DataType::UInt64, DataType::Double, DataType::String}; DataType t = r.pick(ts);
                     int o = (int)r.u(3); Property p = o == 0 ? s.createProperty(name(), gen_values(t, 1)[0]) : s.createProperty(name(), gen_values(t, 1 + r.u(5)));
                     if (r.chance(0.4)) p.unit("mV"); if (r.chance(0.3)) p.uncertainty(r.real()); if (r.chance(0.3)) p.definition("pdef"); break; }
-                case 3: { what = "createSource"; c.op(what); Source s, made; int d = 0; if (r.chance(0.6) && anySource(b, s, &d) && d < 4 && s.sourceCount() < (ndsize_t)max_children) made = s.createSource(name(), "t"); else if (b.sourceCount() < (ndsize_t)max_children) made = b.createSource(name(), "t");
+                case 3: { what = "createSource"; c.op(what); Source s, made; int d = 0; if (r.chance(0.6) && anySource(b, s, &d) && d < 4 && s.sourceCount() < (ndsize_t)max_children) made = s.createSource(name(), "t"); else if (b.sourceCount() < (ndsize_t)max_children) made = b.createSource(child_name("/data/" + b.name() + "/sources"), "t");
                     if (made && r.chance(0.4)) { made.definition("made"); Section se; if (anySection(se)) made.metadata(se); if (d < 3 && r.chance(0.5)) made.createSource(name(), "t"); } break; }
-                case 4: { what = "createDataArray"; c.op(what); if (b.dataArrayCount() < (ndsize_t)max_children) { DataArray a = make_array(b, name()); if (r.chance(0.5)) add_dimension(a); } break; }
+                case 4: { what = "createDataArray"; c.op(what); if (b.dataArrayCount() < (ndsize_t)max_children) { DataArray a = make_array(b, child_name("/data/" + b.name() + "/data_arrays")); if (r.chance(0.5)) add_dimension(a); } break; }
                 case 5: { what = "appendDimension"; c.op(what); DataArray a; if (anyArray(b, a) && a.dimensionCount() < 3) add_dimension(a); break; }
-                case 6: { what = "createDataFrame"; c.op(what); if (b.dataFrameCount() < 4) make_frame(b, name()); break; }
-                case 7: { what = "createTag"; c.op(what); if (b.tagCount() >= (ndsize_t)max_children) break; std::vector<double> p; size_t n = 1 + r.u(3); for (size_t i = 0; i < n; i++) p.push_back((double)r.range(-2, 6) * 0.5); Tag t = b.createTag(name(), "t", p);
+                case 6: { what = "createDataFrame"; c.op(what); if (b.dataFrameCount() < 4) make_frame(b, child_name("/data/" + b.name() + "/data_frames")); break; }
+                case 7: { what = "createTag"; c.op(what); if (b.tagCount() >= (ndsize_t)max_children) break; std::vector<double> p; size_t n = 1 + r.u(3); for (size_t i = 0; i < n; i++) p.push_back((double)r.range(-2, 6) * 0.5); Tag t = b.createTag(child_name("/data/" + b.name() + "/tags"), "t", p);
                     if (r.chance(0.6)) { std::vector<double> e; for (size_t i = 0; i < n; i++) e.push_back((double)r.u(4) * 0.5); t.extent(e); } if (r.chance(0.3)) { std::vector<std::string> u(n, "ms"); t.units(u); }
                     if (r.chance(0.5)) { DataArray a; Source so; Section se; if (anyArray(b, a)) { t.addReference(a); if (r.chance(0.4)) t.createFeature(a, LinkType::Untagged); } if (r.chance(0.4) && anySource(b, so)) t.addSource(so); if (r.chance(0.3) && anySection(se)) t.metadata(se); }   // through the creating handle
                     break; }
-                case 8: { what = "createMultiTag"; c.op(what); DataArray pa; if (b.multiTagCount() < 5 && anyArray(b, pa)) { MultiTag t = b.createMultiTag(name(), "t", pa); if (r.chance(0.3)) { DataArray ea = b.createDataArray(name(), "t", pa.dataType() == DataType::String ? DataType::Double : pa.dataType(), pa.dataExtent()); t.extents(ea); } if (r.chance(0.3)) t.units({"ms"}); } break; }
-                case 9: { what = "createGroup"; c.op(what); if (b.groupCount() >= 5) break; Group g = b.createGroup(name(), "t");
+                case 8: { what = "createMultiTag"; c.op(what); DataArray pa; if (b.multiTagCount() < 5 && anyArray(b, pa)) { MultiTag t = b.createMultiTag(child_name("/data/" + b.name() + "/multi_tags"), "t", pa); if (r.chance(0.3)) { DataArray ea = b.createDataArray(name(), "t", pa.dataType() == DataType::String ? DataType::Double : pa.dataType(), pa.dataExtent()); t.extents(ea); } if (r.chance(0.3)) t.units({"ms"}); } break; }
+                case 9: { what = "createGroup"; c.op(what); if (b.groupCount() >= 5) break; Group g = b.createGroup(child_name("/data/" + b.name() + "/groups"), "t");
                     // members are often added through the handle that the create call returned (not a looked-up one)
                     if (r.chance(0.6)) { DataArray a; Tag t; MultiTag m; DataFrame df; if (r.chance(0.6) && anyArray(b, a)) g.addDataArray(a); if (r.chance(0.5) && anyFrame(b, df)) g.addDataFrame(df); if (r.chance(0.4) && anyTag(b, t)) g.addTag(t); if (r.chance(0.4) && anyMTag(b, m)) g.addMultiTag(m); Source so; if (r.chance(0.3) && anySource(b, so)) g.addSource(so); }
                     break; }
